@@ -15,5 +15,8 @@ void vnet_noanswer_close(struct vnet_noanswer *na);
 /* plain raw listener (accepting), returns fd */
 int vnet_listen(const char *ip, int port, int backlog);
 int vnet_is_v6(const char *ip);
+/* accept on lfd the connection whose other end is the local descriptor local_fd (same process); connections from anybody else are
+ * closed and counted in *strays.  local_fd < 0: the first connection is taken.  Returns the descriptor or -1 after timeout_ms. */
+int vnet_accept_peer(int lfd, int local_fd, int timeout_ms, int *strays);
 
 #endif
